@@ -40,6 +40,7 @@ def main(tier, args):
     jobs = []
     if quick:
         jobs += [("lookups:%s" % e, [lk, e, "6", "2", "2"]) for e in ("epoll", "select")]
+        jobs += [("lookups:followup-lane", [lk, "epoll", "5", "2", "2"], {"C15_FOLLOWUP": "1"})]
         jobs += shards("plain-struct", pp, "struct", 1)
         jobs += shards("asan-struct", pa, "struct", 4)
         jobs += shards("asan-tail2", pa, "tail", 4, 2)                    # id + every byte string of length <= 2
@@ -49,6 +50,7 @@ def main(tier, args):
         ldepth = "depth 6, 2 lookups, 2 servers"
     else:
         jobs += [("lookups:%s" % e, [lk, e, "12", "2", "2"]) for e in ("epoll", "select")]
+        jobs += [("lookups:followup-lane", [lk, "epoll", "8", "2", "2"], {"C15_FOLLOWUP": "1"})]
         jobs += [("lookups:epoll-3lookups", [lk, "epoll", "8", "3", "2"]), ("lookups:epoll-3servers", [lk, "epoll", "10", "2", "3"])]
         jobs += shards("plain-struct2", pp, "struct", 8, "pairs")         # + every pair of bytes replaced
         jobs += shards("asan-struct2", pa, "struct", 16, "pairs")
